@@ -196,6 +196,33 @@ def recursion_guard():
     return obs
 
 
+parse_block_guard_contract("C09", lambda: REPLAY_NESTING)
+
+REPLAY_NESTING = r'''
+def run(m):
+    from liquid import Environment, Mode
+    from liquid.exceptions import LiquidError, BlockNestingError
+    bad = []
+    for depth in (40, 700):
+        src = "{% if true %}" * depth + "x" + "{% endif %}" * depth
+        for mode in (Mode.LAX, Mode.WARN):
+            import warnings
+            with warnings.catch_warnings():
+                warnings.simplefilter("ignore")
+                try:
+                    Environment(tolerance=mode).from_string(src).render()
+                except BaseException as e:
+                    bad.append((depth, mode.name, type(e).__name__))
+        try:
+            Environment().from_string(src)
+            bad.append((depth, "STRICT", "parsed"))
+        except BlockNestingError:
+            pass
+        except BaseException as e:
+            bad.append((depth, "STRICT", type(e).__name__))
+    return {"violated": bool(bad), "observed": bad[:4], "witness": "nesting-guard"}
+'''
+
 not_covered("C09", "'parsing finishes promptly' for the regular-expression lexers (backtracking cost of `.*?` under DOTALL): no contract on the `re` engine's complexity can decide it",
             "the loop-variant obligations are syntactic (a consuming call on every path); callee contracts 'pos does not decrease' are assumed for the parse helpers",
             "the Python-frame budget: (depth limit) x (block nesting limit) x frames-per-level exceeds sys.getrecursionlimit() -- see the known finding")
